@@ -84,6 +84,14 @@ SUMMARY = {
  'C13-agent8': 'Local path run through os.path.normpath: <symlink>/../<dir> addresses another directory than the OS resolves',
  'C14-agent8': 'restore_metadata picks the metadata variant with all(ns): a time-stamp of exactly 0 is taken for the legacy variant, KeyError',
  'C18-agent8': 'cache entries older than 10 minutes are trusted without re-hashing: an old torn entry breaks every command',
+ 'C01-agent9': 'restore keeps files sparse: an all-zero part of >= 4096 bytes is not written - also when it overlaps the old bytes of a shorter pre-existing file',
+ 'C04-agent9': 'chunks of >= 4 MiB are verified in the writer pool by a helper that returns a verdict nobody reads (unencrypted repositories)',
+ 'C06-agent9': 'clean defers the ownership check of unreferenced chunks to lambdas that all capture the last loop variables: one verdict for everybody',
+ 'C10-agent9': 'pieces over 64 MiB are fed to the cutter in steps, every step with the end-of-stream flag of the whole piece',
+ 'C15-agent9': 'time columns of list-files: the pre-1.3 (seconds) metadata variant goes through the nanosecond conversion',
+ 'C16-agent9': 'block size for rate-limited transfers refactored with min() instead of max(): below 16 x concurrency bytes/s the S3 body is empty under a full-payload hash',
+ 'C17-agent9': 'key files created with os.open(O_WRONLY | O_CREAT) without O_TRUNC: a shorter key over a longer file leaves a stale tail',
+ 'C20-agent9': 'pauses capped at 20 ms when called on a thread with a running event loop: with concurrency <= 3 the debt hits the cap and is forgiven',
  'C20-agent1': 'transfer block size floor of 16000 bytes: below 32 kB/s each block owes more than the capped debt',
 }
 rows = []
